@@ -1,20 +1,39 @@
 #!/bin/bash
 # Auxiliary build probe for the no_std clause of C06 (declared in DESIGN.md as NOT simulation):
-# builds the library from /repo with default features (no_std in effect) and lists the crate
-# dependencies recorded in the rlib; anything besides core and compiler_builtins is a violation.
+# builds the library from /repo (a) with default features and (b) with feature `serde`, both with
+# no_std in effect, and lists the crate dependencies recorded in the rlib. With default features
+# anything besides core and compiler_builtins is a violation; with `serde` additionally serde*/bincode*
+# are expected, but never std or alloc. (c) the library must also build with feature `std`.
 ROOT="$(cd "$(dirname "${BASH_SOURCE[0]}")/.." && pwd)"
-T="$ROOT/sim/target/nostd"
+REPO="${VERIF_REPO:-/repo}"
+T="${VERIF_NOSTD_TARGET:-$ROOT/sim/target/nostd}"
 export CARGO_NET_OFFLINE=true
-if ! ( cd /repo && CARGO_TARGET_DIR="$T" cargo +nightly build --offline --lib >"$T.log" 2>&1 ); then
-  echo "NOSTD harness-error: library build failed"; tail -5 "$T.log"; exit 2
+mkdir -p "$T"
+list() { rustc +nightly -Zls=root "$1" 2>/dev/null | awk '/=External Dependencies=/{f=1;next} f&&NF{print $2}' | sed -E 's/-[0-9a-f]+$//' | sort -u | tr '\n' ' '; }
+out=""
+for cfg in default serde; do
+  flags=""; [ $cfg = serde ] && flags="--features serde"
+  if ! ( cd "$REPO" && CARGO_TARGET_DIR="$T/$cfg" cargo +nightly build --offline --lib $flags >"$T/$cfg.log" 2>&1 ); then
+    echo "NOSTD harness-error: library build ($cfg features) failed"; tail -5 "$T/$cfg.log"; exit 2
+  fi
+  deps="$(list "$T/$cfg/debug/libmicromap.rlib")"
+  [ -n "$deps" ] || { echo "NOSTD harness-error: could not list dependencies ($cfg)"; exit 2; }
+  bad=""
+  for d in $deps; do
+    case "$d" in
+      core|compiler_builtins) ;;
+      serde|serde_core|bincode|unty) [ $cfg = serde ] || bad="$bad $d" ;;
+      *) bad="$bad $d" ;;
+    esac
+  done
+  if [ -n "$bad" ]; then
+    echo "NOSTD needs-std: with $cfg features (no_std in effect) the library links against:$bad (all: $deps)"
+    exit 1
+  fi
+  out="$out[$cfg: $deps] "
+done
+if ! ( cd "$REPO" && CARGO_TARGET_DIR="$T/std" cargo +nightly build --offline --lib --features std >"$T/std.log" 2>&1 ); then
+  echo "NOSTD needs-std: the library does not build with feature std: $(grep -m1 '^error' "$T/std.log")"; exit 1
 fi
-deps="$(rustc +nightly -Zls=root "$T/debug/libmicromap.rlib" 2>/dev/null | awk '/=External Dependencies=/{f=1;next} f&&NF{print $2}' | sed -E 's/-[0-9a-f]+$//' | sort -u | tr '\n' ' ')"
-[ -n "$deps" ] || { echo "NOSTD harness-error: could not list dependencies"; exit 2; }
-bad=""
-for d in $deps; do case "$d" in core|compiler_builtins) ;; *) bad="$bad $d" ;; esac; done
-if [ -n "$bad" ]; then
-  echo "NOSTD needs-std: with default features the library links against:$bad (all: $deps)"
-  exit 1
-fi
-echo "NOSTD ok: dependencies with default features: $deps"
+echo "NOSTD ok: dependencies of the no_std library: $out; builds with feature std too"
 exit 0
